@@ -670,6 +670,33 @@ func runC08(c *Check) {
 				}
 			}
 			ok, w := mustPass(st, eq)
+			if ok && !okBreak {
+				// the scan was written as a search that hands out the index of the match: the removal sits
+				// after the scanning loop, which is then trivially left
+				scans := 0
+				outside := true
+				for _, h := range loopHeadersOf(fn) {
+					rs := rangedSlice(h)
+					if rs == nil || loadOfField(rs, fHashes) == nil {
+						continue
+					}
+					body := loopBody(h)
+					hasEq := false
+					for b := range body {
+						if iff, isIf := lastIf(b); isIf && (eq(iff, 0) || eq(iff, 1)) {
+							hasEq = true
+						}
+					}
+					if !hasEq {
+						continue
+					}
+					scans++
+					if body[st.Block()] {
+						outside = false
+					}
+				}
+				okBreak = scans > 0 && outside
+			}
 			c.Decide(okBreak && ok, "R4", "spynode.(*Node).UnsubscribePushDatas#removes-one-matching-entry", st.Pos(), "edge-cutset+cfg-structure", w,
 				"one entry equal to the canonical hash is removed, then the scan stops", "unsubscribe removes an entry that does not equal the requested hash, or keeps scanning after the removal (removing more than subscribing added)")
 		}
